@@ -300,7 +300,182 @@ def main():
     print("translation ok")
 
 
-EXTRA = []
+# ---------------------------------------------------------------------------
+# patch.py : Patcher  ->  one DSL program per _handle_X
+
+
+def xl_patcher(repo):
+    t = ast.parse(open(os.path.join(repo, "xmldiff/patch.py")).read())
+    cls = get_class(t, "Patcher")
+    fs = {}
+    for f in cls.body:
+        if isinstance(f, ast.FunctionDef):
+            fs[f.name] = f
+    for rigid in ("nsmap", "patch", "handle_action"):
+        if rigid not in fs:
+            fail("Patcher.%s missing" % rigid)
+        pin("Patcher." + rigid, fs[rigid])
+    progs = []
+    for name, f in fs.items():
+        if name in ("nsmap", "patch", "handle_action"):
+            continue
+        if not name.startswith("_handle_"):
+            fail("Patcher: unexpected method " + name, f)
+        if argnames(f) != ["self", "action", "tree"]:
+            fail("Patcher.%s: unexpected arguments" % name, f)
+        progs.append((name[len("_handle_"):], xl_handler(name, body_nodoc(f))))
+    return progs
+
+
+def xl_handler(hname, body):
+    vars_ = {}
+    prog = []
+
+    def var(name):
+        if name not in vars_:
+            fail("Patcher.%s: variable %s used before assignment" % (hname, name))
+        return vars_[name]
+
+    def newvar(name):
+        vars_[name] = len(vars_)
+        return vars_[name]
+
+    def afield(e):
+        if is_attr(e, "action"):
+            return e.attr
+        fail("Patcher.%s: expected action.<field>" % hname, e)
+
+    def xp(e):
+        """tree.xpath(action.F[, namespaces=self.nsmap])[0] -> (field, with_ns)"""
+        if not (isinstance(e, ast.Subscript) and isinstance(e.slice, ast.Constant) and e.slice.value == 0):
+            return None
+        c = e.value
+        if not (isinstance(c, ast.Call) and is_attr(c.func, "tree", "xpath") and len(c.args) == 1):
+            return None
+        with_ns = False
+        if c.keywords:
+            if not (len(c.keywords) == 1 and c.keywords[0].arg == "namespaces" and is_attr(c.keywords[0].value, "self", "nsmap")):
+                fail("Patcher.%s: unknown keyword arguments to xpath" % hname, c)
+            with_ns = True
+        return afield(c.args[0]), with_ns
+
+    def resolve_tmp(e):
+        r = xp(e)
+        if r is None:
+            return None
+        v = newvar("$tmp%d" % len(vars_))
+        prog.append("PResolve %d %s %s" % (v, cstr(r[0]), "true" if r[1] else "false"))
+        return v
+
+    def attrib_sub(e):
+        """X.attrib[action.F] -> (var, field) ; X a variable or an xpath expression"""
+        if not (isinstance(e, ast.Subscript) and isinstance(e.value, ast.Attribute) and e.value.attr == "attrib"):
+            return None
+        base = e.value.value
+        if isinstance(base, ast.Name):
+            v = var(base.id)
+        else:
+            v = resolve_tmp(base)
+            if v is None:
+                fail("Patcher.%s: unknown attrib base" % hname, e)
+        return v, afield(e.slice)
+
+    for st in body:
+        if isinstance(st, ast.Pass):
+            prog.append("PNop")
+        elif isinstance(st, ast.Assert):
+            t = st.test
+            if not (isinstance(t, ast.Compare) and len(t.ops) == 1 and isinstance(t.ops[0], (ast.In, ast.NotIn))
+                    and isinstance(t.comparators[0], ast.Attribute) and t.comparators[0].attr == "attrib"
+                    and isinstance(t.comparators[0].value, ast.Name) and st.msg is None):
+                fail("Patcher.%s: unknown assert" % hname, st)
+            ins = "PAssertHas" if isinstance(t.ops[0], ast.In) else "PAssertLacks"
+            prog.append("%s %d %s" % (ins, var(t.comparators[0].value.id), cstr(afield(t.left))))
+        elif isinstance(st, ast.Delete):
+            if len(st.targets) != 1:
+                fail("Patcher.%s: unknown del" % hname, st)
+            r = attrib_sub(st.targets[0])
+            if r is None:
+                fail("Patcher.%s: unknown del" % hname, st)
+            prog.append("PDelAttr %d %s" % (r[0], cstr(r[1])))
+        elif isinstance(st, ast.Assign) and len(st.targets) == 1:
+            tg, val = st.targets[0], st.value
+            if isinstance(tg, ast.Name):
+                r = xp(val)
+                if r is not None:
+                    prog.append("PResolve %d %s %s" % (newvar(tg.id), cstr(r[0]), "true" if r[1] else "false"))
+                elif (isinstance(val, ast.Call) and isinstance(val.func, ast.Attribute) and val.func.attr == "makeelement"
+                      and isinstance(val.func.value, ast.Name) and len(val.args) == 1 and not val.keywords):
+                    t_ = var(val.func.value.id)
+                    prog.append("PMakeElement %d %d %s" % (newvar(tg.id), t_, cstr(afield(val.args[0]))))
+                else:
+                    fail("Patcher.%s: unknown assignment" % hname, st)
+            elif isinstance(tg, ast.Attribute) and tg.attr in ("tag", "text", "tail"):
+                if isinstance(tg.value, ast.Name):
+                    v = var(tg.value.id)
+                else:
+                    v = resolve_tmp(tg.value)
+                    if v is None:
+                        fail("Patcher.%s: unknown assignment target" % hname, st)
+                prog.append("%s %d %s" % ({"tag": "PSetTag", "text": "PSetText", "tail": "PSetTail"}[tg.attr], v, cstr(afield(val))))
+            elif isinstance(tg, ast.Subscript) and is_attr(tg.value, "self", "nsmap"):
+                prog.append("PBindPrefix %s %s" % (cstr(afield(tg.slice)), cstr(afield(val))))
+            else:
+                r = attrib_sub(tg)
+                if r is None:
+                    fail("Patcher.%s: unknown assignment target" % hname, st)
+                if is_attr(val, "action"):
+                    prog.append("PSetAttr %d %s %s" % (r[0], cstr(r[1]), cstr(val.attr)))
+                else:
+                    r2 = attrib_sub(val)
+                    if r2 is None or r2[0] != r[0]:
+                        fail("Patcher.%s: unknown attribute assignment" % hname, st)
+                    prog.append("PCopyAttr %d %s %s" % (r[0], cstr(r[1]), cstr(r2[1])))
+        elif isinstance(st, ast.Expr) and isinstance(st.value, ast.Call):
+            c = st.value
+            fn = c.func
+            # v.getparent().remove(v)
+            if (isinstance(fn, ast.Attribute) and fn.attr == "remove" and isinstance(fn.value, ast.Call)
+                    and isinstance(fn.value.func, ast.Attribute) and fn.value.func.attr == "getparent"
+                    and isinstance(fn.value.func.value, ast.Name) and not fn.value.args and not fn.value.keywords
+                    and len(c.args) == 1 and isinstance(c.args[0], ast.Name) and c.args[0].id == fn.value.func.value.id
+                    and not c.keywords):
+                prog.append("PDetach %d" % var(c.args[0].id))
+            # t.insert(action.P, v | etree.Comment(action.F))
+            elif (isinstance(fn, ast.Attribute) and fn.attr == "insert" and isinstance(fn.value, ast.Name)
+                  and len(c.args) == 2 and not c.keywords):
+                t_ = var(fn.value.id)
+                pos = afield(c.args[0])
+                x = c.args[1]
+                if isinstance(x, ast.Name):
+                    v = var(x.id)
+                elif (isinstance(x, ast.Call) and is_attr(x.func, "etree", "Comment") and len(x.args) == 1 and not x.keywords):
+                    v = newvar("$tmp%d" % len(vars_))
+                    prog.append("PMakeComment %d %s" % (v, cstr(afield(x.args[0]))))
+                else:
+                    fail("Patcher.%s: unknown insert argument" % hname, st)
+                prog.append("PInsertAt %d %s %d" % (t_, cstr(pos), v))
+            else:
+                fail("Patcher.%s: unknown call statement" % hname, st)
+        else:
+            fail("Patcher.%s: unknown statement" % hname, st)
+    return prog
+
+
+def emit_patcher(out, progs):
+    L = ["(* GENERATED by translator/xlate.py from /repo/xmldiff/patch.py (class Patcher) -- do not edit *)",
+         "From Coq Require Import List NArith. Import ListNotations.",
+         "Require Import XV.Str XV.PatcherDSL.",
+         "Definition patcher_progs : list (str * list pinstr) := " +
+         clist(["(%s, %s)" % (cstr(n), clist(p)) for n, p in progs]) + "."]
+    write_if_changed(os.path.join(out, "PatcherProg.v"), "\n".join(L) + "\n")
+
+
+def _extra_patcher(repo, out):
+    emit_patcher(out, xl_patcher(repo))
+
+
+EXTRA = [_extra_patcher]
 
 if __name__ == "__main__":
     main()
